@@ -303,6 +303,11 @@ func (s *SelectStmt) checkFieldNameCycle() error {
 			if ridx < 0 || state[ridx] == done {
 				continue
 			}
+			if _, bare := s.Fields[idx].(*NameExpr); bare && ridx == idx {
+				// A field that is only a name nobody defines (select key, x)
+				// is listed under that name, it does not define itself
+				continue
+			}
 			if state[ridx] == visiting {
 				return NewSyntaxError(s.Fields[idx].GetPos(), "Field %s is defined by itself", name)
 			}
